@@ -266,15 +266,18 @@ def emplace (v : Vec) (pos : Nat) (a : Arg) (l : Ledger) : Option (Vec × Ledger
             | none => none
             | some b => some ({ v with data := some b, size := v.size + 1 }, (l.addMctor 1).addDtor 1)
 
+/-- the element `first[k]` of insert(pos, first, last) as the fill loop reads it: an own element
+    that stood at or behind `pos` has been moved up by `sz` -/
+def srcVal (b : Buf) (pos sz : Nat) (src : Src) (k : Nat) : Option Val :=
+  match src with
+  | .own f _ => rd b (if f + k < pos then f + k else f + k + sz)
+  | .ext xs => xs[k]?
+
 /-- the fill loop of insert(pos, first, last); `k` counts up, `n` iterations left -/
 def fillLoop (b : Buf) (pos oldsize sz : Nat) (src : Src) (k : Nat) : Nat → Ledger → Option (Buf × Ledger)
   | 0, l => some (b, l)
   | n + 1, l =>
-    let x : Option Val :=
-      match src with
-      | .own f _ => rd b (if f + k < pos then f + k else f + k + sz)
-      | .ext xs => xs[k]?
-    match x with
+    match srcVal b pos sz src k with
     | none => none
     | some x =>
       if pos + k < oldsize then
